@@ -434,7 +434,7 @@ func (w *walReader) CloseAndRepair() error {
 				}
 			}
 			for i := idx + 1; i <= w.wi.tailIdx; i++ {
-				if err := os.Remove(fileFor(w.id, idx)); err != nil {
+				if err := os.Remove(fileFor(w.id, i)); err != nil {
 					return errors.WithStack(err)
 				}
 			}
